@@ -438,6 +438,7 @@ class RetryExecutor(CanCustomizeBind, Executor):
             # retrying on cancel is not allowed; the job is finished with
             self._log.debug("Delegate was cancelled: %s", delegate_future)
             self._pop_job(found_job)
+            found_job.future._me_delegate_cancelled()
             return
 
         (should_retry, sleep_time) = eval_policy(found_job, self._log)
